@@ -619,6 +619,9 @@ impl ObjectReceiver {
             return;
         }
 
+        // Replay the packets in the order they were received, the packet that carries
+        // the close-object flag is the last one and must be handled after the others
+        self.cache.reverse();
         while let Some(item) = self.cache.pop() {
             let pkt = item.to_pkt();
             if self.push_to_block(&pkt, now).is_err() {
